@@ -114,10 +114,17 @@ impl PartialOrd for Numeric {
             self.value.partial_cmp(&other.value)
         } else if self.is_no_unit() || other.is_no_unit() {
             self.value.partial_cmp(&other.value)
-        } else if let Some(scaled) = other.as_unitset(&self.unit) {
-            self.value.partial_cmp(&scaled)
         } else {
-            None
+            // Note: Always convert in the same direction, regardless of
+            // operand order.  Otherwise `a == b` may differ from `b == a`
+            // for values differing by a rounding error.
+            let scale = other.unit.scale_to(&self.unit)?;
+            if scale >= 1. {
+                self.value.partial_cmp(&(&other.value * &scale.into()))
+            } else {
+                let scale = self.unit.scale_to(&other.unit)?;
+                (&self.value * &scale.into()).partial_cmp(&other.value)
+            }
         }
     }
 }
